@@ -411,6 +411,13 @@ impl<'a> From<Piece<'a>> for Chunk {
                         None => "%+".to_owned(),
                     };
 
+                    // an invalid format would otherwise only fail (and panic) when a record is encoded
+                    if chrono::format::StrftimeItems::new(&format)
+                        .any(|item| item == chrono::format::Item::Error)
+                    {
+                        return Chunk::Error(format!("invalid date format `{}`", format));
+                    }
+
                     let timezone = match formatter.args.get(1) {
                         Some(arg) => {
                             if let Some(arg) = arg.first() {
